@@ -182,11 +182,56 @@ def outside_check():
         return f"ctx.state outside every scope raised {e!r}, expected MissingContext"
 
 
+def types_that_need_arguments():
+    """"... else a missing-state error": a type with an attribute that has no default needs an argument - also when that
+    attribute's annotation admits None (`int | None` is not "defaults to None"), a Missing-typed one does not."""
+    from haiway import Missing
+
+    class NeedsOptional(State):
+        v: int = 0
+        limit: int | None
+
+    class NeedsNothing(State):
+        v: int = 0
+        note: str | Missing
+
+    async def prog():
+        out = []
+        async with ctx.scope("root", A(v=1)):
+            for where in ("async scope", "update", "sync scope"):
+                try:
+                    if where == "update":
+                        with ctx.updated(B(v=2)):
+                            got = ctx.state(NeedsOptional)
+                    elif where == "sync scope":
+                        with ctx.scope("inner"):
+                            got = ctx.state(NeedsOptional)
+                    else:
+                        got = ctx.state(NeedsOptional)
+                    out.append(f"{where}: ctx.state(NeedsOptional) returned {got} although the type needs an argument (limit: int | None "
+                               "has no default) and nobody supplied it - expected the missing-state error")
+                except MissingState:
+                    pass
+                except Exception as e:  # noqa
+                    out.append(f"{where}: ctx.state(NeedsOptional) raised {e!r}, expected the missing-state error")
+            fallback = NeedsOptional(v=3, limit=None)
+            if ctx.state(NeedsOptional, default=fallback) is not fallback:
+                out.append("the explicit default of a type that needs arguments was not returned")
+            try:
+                if ctx.state(NeedsNothing) != NeedsNothing():
+                    out.append("a type whose only default-less attribute admits Missing is default-constructible")
+            except Exception as e:  # noqa
+                out.append(f"ctx.state(NeedsNothing) raised {e!r}: the type needs no arguments")
+        return out
+    p = asyncio.run(prog())
+    return p[0] if p else None
+
+
 def main():
     sys.stdin.read()
     seed = int(os.environ.get("VERIF_SEED", "0") or 0)
     rng = random.Random(seed)
-    p = outside_check()
+    p = outside_check() or types_that_need_arguments()
     n = 0
     if p is None:
         for _ in range(int(os.environ.get("C01_TREES", "150"))):
